@@ -8,6 +8,7 @@ pub mod c07;
 pub mod cfgrammar;
 pub mod c08;
 pub mod c09;
+pub mod c10;
 pub mod c12;
 pub mod c13;
 pub mod c14;
@@ -33,6 +34,7 @@ pub fn run(prop: &str, tier: Tier, replay: Option<Value>) -> ! {
         "C07" => c07::run(tier, replay),
         "C08" => c08::run(tier, replay),
         "C09" => c09::run(tier, replay),
+        "C10" => c10::run(tier, replay),
         "C12" => c12::run(tier, replay),
         "C13" => c13::run(tier, replay),
         "C14" => c14::run(tier, replay),
